@@ -23,9 +23,18 @@ def main():
     try:
         tuples = []
         stl_paths = get_stl_paths()
+        libdir = td / 'lib'
         for short, kind, ref in cfg['files']:
             if kind == 'stl':
                 tuples.append((short, stl_paths[ref]))
+            elif kind == 'lib':
+                # the private cacheable library of C13's library mode: [name, text]
+                from flipjump.assembler import fj_parser
+                libdir.mkdir(exist_ok=True)
+                p = libdir / ref[0]
+                p.write_text(ref[1])
+                fj_parser._STL_DIR = libdir.resolve()
+                tuples.append((short, p))
             else:
                 p = td / f'u{len(tuples)}.fj'
                 p.write_text(ref)
